@@ -27,6 +27,8 @@ func init() {
 		NotDecided: "Semantic equivalence with the FRR-mode output (needs an interpretation of both); behaviour of frr-k8s itself.",
 		Run:        runC15,
 		Mutants: []Mutant{
+			{Name: "community-group-rebuilt-from-other-key", File: "internal/bgp/frrk8s/frrk8s.go",
+				Old: "\t\t\t\tprefixesForCommunity[comm] = append(prefixesForCommunity[comm], prefix)\n", New: "\t\t\t\tprefixesForCommunity[comm] = append(prefixesForCommunity[c.String()], prefix)\n", Expect: "ACCUMULATE"},
 			{Name: "dump-retracts-in-callers-object", File: "internal/bgp/frrk8s/frrk8s.go",
 				Old: "\ttoDump := config.DeepCopy()\n", New: "\ttoDump := &config\n", Expect: "DUMP-COPY"},
 			{Name: "allowed-prefixes-unsorted", File: "internal/bgp/frrk8s/frrk8s.go",
